@@ -30,7 +30,7 @@ import families
 REPO = os.environ.get("CNTGS_REPO", "/repo")
 BUILD = os.path.join(ROOT, "build")
 MODEL = os.path.join(BUILD, "model", "model_run")
-CXXFLAGS = ["-std=c++17", "-O0", "-fno-access-control", "-DNDEBUG", "-DCNTGS_VERIF", "-w"]
+CXXFLAGS = ["-std=c++17", "-O0", "-fno-access-control", "-DNDEBUG", "-DCNTGS_VERIF", "-w", "-pthread"]
 
 
 def sh(cmd, **kw):
